@@ -27,16 +27,42 @@ pub enum CodecKind {
     WireDirty,
     Bincode,
     Postcard,
+    /// the strict codec, but the one owned by an instance fails about one call in twelve (encode or
+    /// decode, header or member) for no reason: an injected fault ("the codec returns an error"). Only
+    /// the no-panic check uses it; helpers and monitors built with `AnyCodec::new` never fail.
+    WireFlaky,
+}
+
+impl CodecKind {
+    pub fn is_wire(self) -> bool {
+        matches!(self, CodecKind::Wire | CodecKind::WireDirty | CodecKind::WireFlaky)
+    }
 }
 
 #[derive(Clone, Copy, Debug)]
 pub struct AnyCodec {
     pub kind: CodecKind,
+    /// Some(seed): this is an instance's own codec of kind WireFlaky
+    flaky: Option<u64>,
+    calls: u64,
 }
 
 impl AnyCodec {
     pub fn new(kind: CodecKind) -> Self {
-        AnyCodec { kind }
+        AnyCodec { kind, flaky: None, calls: 0 }
+    }
+    /// The codec handed to a simulated instance (the only one that injects failures)
+    pub fn for_instance(kind: CodecKind, seed: u64) -> Self {
+        AnyCodec { kind, flaky: if kind == CodecKind::WireFlaky { Some(seed) } else { None }, calls: 0 }
+    }
+    fn injected_failure(&mut self, what: &str) -> Result<(), CodecErr> {
+        if let Some(seed) = self.flaky {
+            self.calls += 1;
+            if crate::prng::mix2(seed ^ 0xf1a4_c0dec, self.calls) % 12 == 0 {
+                return Err(CodecErr(format!("injected codec failure in {what}")));
+            }
+        }
+        Ok(())
     }
 }
 
@@ -207,8 +233,9 @@ impl Codec<SimId> for AnyCodec {
     type Error = CodecErr;
 
     fn encode_header(&mut self, h: &Header<SimId>, mut buf: impl BufMut) -> Result<(), CodecErr> {
+        self.injected_failure("encode_header")?;
         match self.kind {
-            CodecKind::Wire | CodecKind::WireDirty => {
+            CodecKind::Wire | CodecKind::WireDirty | CodecKind::WireFlaky => {
                 let tmp = wire_header_bytes(h);
                 if buf.remaining_mut() < tmp.len() {
                     return Err(e("no space for header"));
@@ -226,8 +253,9 @@ impl Codec<SimId> for AnyCodec {
     }
 
     fn decode_header(&mut self, mut buf: impl Buf) -> Result<Header<SimId>, CodecErr> {
+        self.injected_failure("decode_header")?;
         match self.kind {
-            CodecKind::Wire | CodecKind::WireDirty => wire_decode_header(&mut buf),
+            CodecKind::Wire | CodecKind::WireDirty | CodecKind::WireFlaky => wire_decode_header(&mut buf),
             CodecKind::Bincode => BincodeCodec(bincode::config::standard())
                 .decode_header(buf)
                 .map_err(|x| CodecErr(format!("bincode: {x}"))),
@@ -238,8 +266,9 @@ impl Codec<SimId> for AnyCodec {
     }
 
     fn encode_member(&mut self, m: &Member<SimId>, mut buf: impl BufMut) -> Result<(), CodecErr> {
+        self.injected_failure("encode_member")?;
         match self.kind {
-            CodecKind::Wire => {
+            CodecKind::Wire | CodecKind::WireFlaky => {
                 let tmp = wire_member_bytes(m);
                 if buf.remaining_mut() < tmp.len() {
                     return Err(e("no space for member"));
@@ -268,8 +297,9 @@ impl Codec<SimId> for AnyCodec {
     }
 
     fn decode_member(&mut self, mut buf: impl Buf) -> Result<Member<SimId>, CodecErr> {
+        self.injected_failure("decode_member")?;
         match self.kind {
-            CodecKind::Wire | CodecKind::WireDirty => wire_decode_member(&mut buf),
+            CodecKind::Wire | CodecKind::WireDirty | CodecKind::WireFlaky => wire_decode_member(&mut buf),
             CodecKind::Bincode => BincodeCodec(bincode::config::standard())
                 .decode_member(buf)
                 .map_err(|x| CodecErr(format!("bincode: {x}"))),
